@@ -1,6 +1,14 @@
 import PPProofs.Props.C04
+import PPProofs.Props.C04Iter
 #print axioms PP.Parse.growLoop_peek_spec
 #print axioms PP.Parse.growLoop_round_grows
 #print axioms PP.Parse.lr_no_base
 #print axioms PP.Parse.lr_transparent_nonrec
 #print axioms PP.Parse.lr_transparent_nonrec_fail
+#print axioms PP.Parse.lr_direct_eq_iterative
+#print axioms PP.Parse.lr_direct_eq_iterative_acts
+#print axioms PP.Parse.lr_direct_eq_iterative_budget
+#print axioms PP.Parse.iterLoop_budget
+#print axioms PP.Parse.iterLoop_no_hang
+#print axioms PP.Parse.iterRef_plain
+#print axioms PP.Parse.growLoop_lrBody_loop
